@@ -18,6 +18,10 @@ def gen(rng):
         r = rng.random()
         ops.append((("add" if r < 0.6 else "rem" if r < 0.8 else rng.choice(["reload", "special"])), rng.choice(keys), rng.choice([1, 1, 2, 4])))
     case = {"kind": kind, "est": rng.choice([1, 2, 3, 5, 12]), "fpr": rng.choice([0.3, 0.1, 0.05]), "ops": ops, "q": rng.choice([1, 2, 3]), "seed": rng.randrange(2**32)}
+    if kind == "qf" and case["q"] == 2:
+        # a filter that does not expand, filled until insertions are refused: a refused call counts nothing
+        extra = ["f%d" % i for i in range(12)]
+        case["ops"] = [("add", k, 1) for k in extra] + ops
     if kind in ("cuckoo", "ccf"):
         case["ck"] = gen_case(rng, counting=(kind == "ccf"), tiny=rng.random() < 0.6)
     return case
@@ -133,7 +137,9 @@ def check(case):
                     if obj.elements_added != want:
                         return f"step {step} after {op}: {type(obj).__name__}.elements_added {obj.elements_added} != net amount {want}"
                 else:
-                    h = hash(key) % (1 << 32)
+                    import zlib
+
+                    h = zlib.crc32(key.encode("utf-8")) & 0xFFFFFFFF  # deterministic (str hashes are salted per process)
                     if op == "add":
                         try:
                             obj.add_alt(h)
